@@ -286,6 +286,7 @@ def O_run_once(ctx):
     f = ctx.method('scheduler::Scheduler<DB>', 'run_once')
     ps = feasible(f.paths())
     bad, n_exec, n_rej = [], 0, 0
+    msg_inline = False
     for p in ps:
         cas = [e for e in p.events if e.kind == 'call' and 'std::sync::atomic' in e.d['callee'] and mentions_field(e.d['args'][0], 'Scheduler.started')]
         closure_calls = [e for e in p.events if e.kind == 'call' and re.search(r'Fn(Once|Mut)?::call(_once|_mut)?$', e.d['callee']) and strip(e.d['args'][0]) == ('arg', 2)]
@@ -293,8 +294,27 @@ def O_run_once(ctx):
             bad.append(('started is not elected by one strong compare_exchange(false,true)', p))
             continue
         dec = [a for a in p.events if a.kind == 'atom' and mentions(a.d['term'], cas[0].d['result'])]
-        won = any(a.d['outcome'] in ('Continue', 'Ok', 'true') for a in dec)
-        lost = any(a.d['outcome'] in ('Break', 'Err', 'false') for a in dec)
+        def verdict(a):
+            t, o = a.d['term'], a.d['outcome']
+            neg = False
+            while t[0] == 'un' and t[1] == 'Not':
+                t, neg = t[2], not neg
+            if t[0] == 'call' and o in ('true', 'false'):
+                b = (o == 'true') != neg
+                if callee_matches(t[1], 'Result::is_err'):
+                    return 'lost' if b else 'won'
+                if callee_matches(t[1], 'Result::is_ok'):
+                    return 'won' if b else 'lost'
+                return None
+            if o in ('Continue', 'Ok'):
+                return 'won'
+            if o in ('Break', 'Err'):
+                return 'lost'
+            return None
+        won = any(verdict(a) == 'won' for a in dec)
+        lost = any(verdict(a) == 'lost' for a in dec)
+        if won and lost:
+            bad.append(('contradictory election decisions on one path', p))
         if closure_calls:
             n_exec += 1
             i = idx_of(p, closure_calls[0])
@@ -310,18 +330,20 @@ def O_run_once(ctx):
             others = [e for e in p.events if e.kind == 'call' and e.d.get('local') and not callee_matches(e.d['callee'], ('SchedulerContext::committed_idx',))]
             if others:
                 bad.append(('losing path calls ' + short(others[0].d['callee']), p))
+            if ret[0] == 'agg' and ret[2] == 'Err' and any(s[0] == 'agg' and s[1].endswith('GrevmError') for s in subterms(ret)) and any(s[0] == 'agg' and s[2] == 'Custom' for s in subterms(ret)):
+                msg_inline = True
     ctx.ob('O2', f, 'election-dominates-closure', n_exec >= 1 and n_rej >= 1 and not bad, '; '.join(w for w, _ in bad[:3]), site=f.loc(f.b['lo']),
            what='the closure (the only way to outcomes/state) runs exactly on the success edge of a strong CAS false→true; the losing edge returns the error before touching anything')
     # the rejection error
     cl = facts.closures_of(f.name)
-    msg_ok = False
+    msg_ok = msg_inline
     for c in cl:
         cf = ctx.fn(c)
         for p in feasible(cf.paths()):
             ret = [e for e in p.events if e.kind == 'ret'][0].d['value']
             if ret[0] == 'agg' and ret[1].endswith('GrevmError') and any(s[0] == 'agg' and s[2] == 'Custom' for s in subterms(ret)):
                 msg_ok = True
-    ctx.ob('O2', f, 'losing-edge-returns-once-error', msg_ok, 'the map_err closure does not build GrevmError{EVMError::Custom(..)}', site=f.loc(f.b['lo']))
+    ctx.ob('O2', f, 'losing-edge-returns-once-error', msg_ok, 'neither the losing path nor a map_err closure builds GrevmError{EVMError::Custom(..)}', site=f.loc(f.b['lo']))
     # O3 who touches `started`
     users = set()
     for b in facts.production():
@@ -592,7 +614,7 @@ def W_producers(ctx):
 def L6_panic_path(ctx):
     facts = ctx.facts
     pe = ctx.method('scheduler::Scheduler<DB>', 'parallel_execute_inner')
-    cls = [b for b in facts.bodies if b['kind'] == 'closure' and b['fn'].startswith(pe.name + '::')]
+    cls = facts.closures_under(pe.name)
     roles = {'run_finality_loop': 0, 'run_commit_loop': 0, 'run_worker': 0}
     bad = []
     scope_body = None
